@@ -15,6 +15,7 @@ import (
 
 	"verifharness/canon"
 	"verifharness/drv"
+	"verifharness/ev"
 	"verifharness/gen"
 	"verifharness/model"
 )
@@ -36,6 +37,29 @@ type RIBMon struct {
 	Stamp *spb.Uint128
 	Srv   *server.Server
 	GS    *drv.GRPCServer
+	// Dead is set when a direct call into package rib did not return within the watchdog
+	// (the RIB is wedged): every later step of this monitor is skipped as inconclusive,
+	// and ev.Finish decides at the end of the run whether the block is permanent.
+	Dead bool
+}
+
+const deadMsg = "INCONCLUSIVE|a call into the RIB did not return within the watchdog; the rest of this case was skipped"
+
+// guarded runs fn under the watchdog; false = it never returned.
+func (x *RIBMon) guarded(what string, fn func()) bool {
+	if x.Dead {
+		return false
+	}
+	done := make(chan struct{})
+	go func() { fn(); close(done) }()
+	select {
+	case <-done:
+		return true
+	case <-time.After(drv.Watchdog):
+		x.Dead = true
+		ev.NoteWatchdog(what)
+		return false
+	}
 }
 
 // NewServerRIBMon is NewRIBMon with the operations programmed through the Modify RPC
@@ -175,10 +199,17 @@ func (x *RIBMon) Do(spec gen.OpSpec) (*model.StepResult, []string) {
 	x.Trace = append(x.Trace, spec.String())
 	var oks, fails []uint64
 	var err error
+	if x.Dead {
+		return &model.StepResult{}, []string{deadMsg}
+	}
 	if x.Via != nil {
 		oks, fails, err = x.applyVia(spec)
-	} else {
-		oks, fails, err = Apply(x.R, spec)
+		if err == drv.ErrWatchdog {
+			x.Dead = true
+			return &model.StepResult{}, []string{deadMsg}
+		}
+	} else if !x.guarded("rib.AddEntry/DeleteEntry", func() { oks, fails, err = Apply(x.R, spec) }) {
+		return &model.StepResult{}, []string{deadMsg}
 	}
 	x.LastOks, x.LastFails = oks, fails
 	if err != nil {
@@ -198,7 +229,10 @@ func (x *RIBMon) Do(spec gen.OpSpec) (*model.StepResult, []string) {
 // Flush flushes the named NIs on both sides.
 func (x *RIBMon) Flush(nis []string) []string {
 	x.Trace = append(x.Trace, fmt.Sprintf("FLUSH %v", nis))
-	err := x.R.Flush(nis)
+	var err error
+	if !x.guarded("rib.Flush", func() { err = x.R.Flush(nis) }) {
+		return []string{deadMsg}
+	}
 	x.M.Flush(nis)
 	if err != nil {
 		x.Trace[len(x.Trace)-1] += fmt.Sprintf("  => error %v", strings.ReplaceAll(err.Error(), "\n", "; "))
@@ -236,6 +270,14 @@ func diffProblems(prefix string, want, got canon.Contents) []string {
 
 // Compare checks RIBContents (and hooked state) against the model.
 func (x *RIBMon) Compare() []string {
+	var out []string
+	if !x.guarded("RIBContents / hooked state", func() { out = x.compare() }) {
+		return []string{deadMsg}
+	}
+	return out
+}
+
+func (x *RIBMon) compare() []string {
 	var out []string
 	rc, err := x.R.RIBContents()
 	if err != nil {
@@ -337,14 +379,22 @@ func GetNI(r *rib.RIB, ni string, aft spb.AFTType) ([]*spb.GetResponse, error) {
 		case err := <-errCh:
 			return out, err
 		case <-timeout:
-			return out, fmt.Errorf("GetRIB watchdog fired")
+			ev.NoteWatchdog("GetRIB")
+			return out, errGetWatchdog
 		}
 	}
 }
 
 // CompareGet checks GetRIB(ALL) output against the model.
 func (x *RIBMon) CompareGet() []string {
+	if x.Dead {
+		return []string{deadMsg}
+	}
 	rs, err := GetAll(x.R, spb.AFTType_ALL)
+	if err == errGetWatchdog {
+		x.Dead = true
+		return []string{deadMsg}
+	}
 	if err != nil {
 		return []string{"getrib-error|" + err.Error()}
 	}
@@ -356,6 +406,8 @@ func (x *RIBMon) CompareGet() []string {
 	out = append(out, diffProblems("get", x.M.Contents(), got)...)
 	return out
 }
+
+var errGetWatchdog = fmt.Errorf("GetRIB watchdog fired")
 
 // SplitSig splits a "signature|text" problem.
 func SplitSig(p string) (string, string) {
